@@ -243,8 +243,11 @@ def run(ctx):
             ctx.count("hook.parses")
             if hm._vf_alarms:
                 ctx.count("hook.alarms")
+                if ctx.counters["hook.alarms_expanded"] >= 12:
+                    continue   # bounded: the amplifier must not multiply the run time on a tree that leaks everywhere
+                ctx.count("hook.alarms_expanded")
                 before_v = sum(ctx.vcount.values())
-                for B2 in battery:
+                for B2 in rng.sample(battery, 150):
                     check_case(ctx, {"conf": conf, "A": A, "B": B2}, minimize=False)
                 if sum(ctx.vcount.values()) == before_v:
                     ctx.count("hook.alarms_unconfirmed")
